@@ -213,3 +213,52 @@ func C16Structured(cls string) bool {
 	}
 	return true
 }
+
+// C16EngineeredAB draws a pair of scalars (a, b) for the triple-base
+// multiplication such that the split of delta*b into two 128-bit halves is
+// extreme.  a = d0/d1 mod L for a prescribed vector (d0, d1) far shorter than
+// sqrt(L), which the reduction therefore returns up to sign (delta = +-d1);
+// b = +-target/d1 mod L, so that |delta|*b mod L equals `target` (for one of
+// the two signs): a multiple of 2^128 (low half zero), 2^128-1 (high half
+// zero), 2^127, 2^128, 0, 1, or a value with an all-ones low half.
+func C16EngineeredAB(t *rapid.T, label string) (a, b []byte, cls string) {
+	one := big.NewInt(1)
+	b0 := uint(rapid.IntRange(0, 118).Draw(t, label+"_b0"))
+	b1 := uint(rapid.IntRange(1, 118).Draw(t, label+"_b1"))
+	if rapid.IntRange(0, 2).Draw(t, label+"_tiny") == 0 {
+		b0, b1 = uint(rapid.IntRange(0, 3).Draw(t, label+"_tb0")), uint(rapid.IntRange(1, 3).Draw(t, label+"_tb1"))
+	}
+	d0 := c16RandBits(t, b0, label+"_d0")
+	d1 := c16RandBits(t, b1, label+"_d1")
+	if rapid.Bool().Draw(t, label+"_neg") {
+		d0.Neg(d0)
+	}
+	av := ref.SMul(d0, ref.SInv(d1))
+	var target *big.Int
+	hiBits := uint(rapid.IntRange(1, 124).Draw(t, label+"_hb"))
+	hi := new(big.Int).Lsh(c16RandBits(t, hiBits, label+"_hi"), 128)
+	switch rapid.IntRange(0, 8).Draw(t, label+"_tk") {
+	case 0, 1:
+		target, cls = hi, "db=x*2^128"
+	case 2:
+		target, cls = new(big.Int).Sub(pow2(128), one), "db=2^128-1"
+	case 3:
+		target, cls = pow2(128), "db=2^128"
+	case 4:
+		target, cls = pow2(127), "db=2^127"
+	case 5:
+		target, cls = big.NewInt(int64(rapid.IntRange(0, 1).Draw(t, label+"_01"))), "db=0|1"
+	case 6:
+		target, cls = new(big.Int).Add(hi, new(big.Int).Sub(pow2(128), one)), "db=x*2^128+ones"
+	case 7:
+		target, cls = new(big.Int).Add(hi, one), "db=x*2^128+1"
+	default:
+		target, cls = new(big.Int).Sub(ref.L, one), "db=L-1"
+	}
+	target = ref.SMod(target)
+	if rapid.Bool().Draw(t, label+"_tneg") {
+		target = ref.SNeg(target)
+	}
+	bv := ref.SMul(target, ref.SInv(d1))
+	return ref.ToLE(av, 32), ref.ToLE(bv, 32), cls
+}
